@@ -213,6 +213,24 @@ theorem writeTpl_parse_roundtrip (segs : List (Bytes × Nat)) (hs : SegsOk segs)
   ⟨_, _, parseTpl_src segs hs tail ht,
    writeTpl_src params helpers overrides segs (fun ld h => ⟨(hs ld h).2.1, hb ld h⟩) tail⟩
 
+/-- `a{key}b` parses to a keyword placeholder, and instantiating it inserts the keyword parameter of the
+call if given, else the `set_value` helper, else nothing — for all brace-free `a`, `b` and every key
+that is non-empty, not all digits and has no `}` -/
+theorem parseTpl_keyword_roundtrip (a : Bytes) (ha : BraceFree a) (k : Bytes) (hk : ∀ c ∈ k, c.toNat ≠ Gen.tplClose)
+    (hnd : k.any (fun c => Gen.tplNotDigit c.toNat) = true) (b : Bytes) (hb : BraceFree b)
+    (params : List Bytes) (helpers overrides : List (Bytes × Bytes)) :
+    ∃ t, parseTpl (a ++ UInt8.ofNat Gen.tplOpen :: (k ++ UInt8.ofNat Gen.tplClose :: b)) false = .ok (t, 0) ∧
+      writeTpl t params helpers overrides =
+        .ok (a ++ (match lookupKV overrides k with
+                   | some v => v
+                   | none => (lookupKV helpers k).getD []) ++ b) :=
+  ⟨_, parseTpl_keyword a ha k hk hnd b hb, writeTpl_keyword a k b params helpers overrides⟩
+
+/-- `/{lang}/x` with `lang` given both as helper and as keyword parameter -/
+example : ∃ t, parseTpl [47, 123, 108, 97, 110, 103, 125, 47, 120] false = .ok (t, 0) ∧
+    writeTpl t [] [([108, 97, 110, 103], [101, 110])] [([108, 97, 110, 103], [104, 101])] = .ok [47, 104, 101, 47, 120] := by
+  exact ⟨⟨[[47], [47, 120]], [0], [[108, 97, 110, 103]]⟩, by decide, by decide⟩
+
 /-! ## URL generation and routing agree -/
 
 /-- **mapper/dispatcher consistency, any depth.**  Let `key` (any key form: relative, `a/b`, `..`,
